@@ -241,7 +241,7 @@ if any(sp.sympify(g).free_symbols for g in got) or any(abs(sp.N(g - w, 30)) > 1e
 
 def run(ctx, timeout):
     items = pmap(_cands, [0], procs=1)[0]
-    res = pmap(check_one, [(m, f, timeout) for m, f in items], chunk=1)
+    res = pmap(check_one, [(m, f, timeout) for m, f in items], chunk=1, hard_s=240 if timeout <= 10000 else None)
     n = 0
     for r in res:
         if "error" in r:
